@@ -71,14 +71,14 @@ def is_structural(t, path):
     return c[0] == "tuple" and path[-1] in PAYLOAD.get(parent[0], ())
 
 
-def minimal_failing_subtree(t, fails):
-    """First (post-order) sub-spec that fails on its own; None if none (not even *t*)."""
+def minimal_failing_subtree(t, fails, kind=None):
+    """First (post-order) sub-spec that fails on its own (with failure kind *kind* if given);
+    None if none (not even *t*)."""
     for path, c in paths(t):
         if not _is_expr(c) or is_structural(t, path):
             continue
-        # only the payload tuple of an n-ary node is not an input by itself unless the check says so
         k = fails(c)
-        if k:
+        if k and (kind is None or k == kind):
             return path, c, k
     return None
 
@@ -147,19 +147,28 @@ def generalise(s, kind, fails, used=None):
 
 
 def localise(t, fails, max_rounds=6, do_shrink=True):
-    """-> list of (kind, signature, minimal spec).  Falls back to the whole tree."""
+    """-> list of (kind, signature, minimal spec).
+
+    Each round takes the failure kind the check reports for the current tree, finds the minimal
+    sub-tree failing with *that* kind (so a different, more widespread failure in a leaf cannot
+    hide it), shrinks and generalises it, replaces it by a fresh variable and continues.
+    """
     out = []
     used = _names(t)
     cur = t
     for _ in range(max_rounds):
-        hit = minimal_failing_subtree(cur, fails)
+        kind = fails(cur)
+        if not kind:
+            break
+        hit = minimal_failing_subtree(cur, fails, kind)
         if hit is None:
+            out.append((kind, signature(kind, cur), cur))
             break
         path, sub, kind = hit
         m = shrink(sub, kind, fails) if do_shrink else sub
         out.append((kind, signature(kind, m), m))
-        if not path:
-            break
+        if not path or not spec_children(sub):
+            break           # the whole tree, or a leaf that a fresh variable would not repair
         cur = replace_at(cur, path, _fresh(used))
     return out
 
